@@ -102,6 +102,20 @@ def _isinstance_classes(model: Model, f: FuncInfo, test: Optional[ast.AST]) -> L
     return out
 
 
+def _escaping_helper(model: Model, q: str) -> bool:
+    """A method all of whose returns are enc(<something>)."""
+    h = model.funcs.get(q)
+    if h is None or isinstance(h.node, ast.Lambda):
+        return False
+    rets = [n for n in walk_no_nested(h.node) if isinstance(n, ast.Return)]
+    return bool(rets) and all(isinstance(r.value, ast.Call) and (dotted(r.value.func) or "") in ("enc", "utils.enc") for r in rets)
+
+
+def _filters_control(h) -> bool:
+    """The function applies self.CONTROL.sub('', ...) to a str value (on the way to enc)."""
+    return any(isinstance(c, ast.Call) and "".join((dotted(c.func) or "").split()) in ("self.CONTROL.sub", "XMLConverter.CONTROL.sub") and c.args and isinstance(c.args[0], ast.Constant) and c.args[0].value == "" for c in ast.walk(h.node))
+
+
 def run(model: Model, rep: Report) -> None:
     _round8(model, rep)
     rep.explanation = (
@@ -143,6 +157,9 @@ def run(model: Model, rep: Report) -> None:
                     if isinstance(val, ast.Call) and (dotted(val.func) or "") in ("enc", "utils.enc", "escape", "html.escape"):
                         r1.ok(where, f.qualname, txt, note="escaped")
                         continue
+                    if isinstance(val, ast.Call) and (dotted(val.func) or "").startswith("self.") and _escaping_helper(model, CV + "XMLConverter." + (dotted(val.func) or "")[5:]):
+                        r1.ok(where, f.qualname, txt, note="escaped by a helper whose every return is enc(...)")
+                        continue
                     if isinstance(val, ast.Call) and (dotted(val.func) or "") in ("bbox2str", "matrix2str", "str", "len", "int", "float", "repr") and (dotted(val.func) or "") in ("bbox2str", "matrix2str", "len", "int", "float"):
                         r1.ok(where, f.qualname, txt, note="numeric formatter")
                         continue
@@ -181,6 +198,26 @@ def run(model: Model, rep: Report) -> None:
             if not any(pol and isinstance(p, ast.Compare) and unparse(p.left) == nm and isinstance(p.ops[0], ast.Eq) and isinstance(p.comparators[0], ast.Constant) for t, pol in gts for p in ([t] if not isinstance(t, ast.BoolOp) else t.values)):
                 okcs = False
     r1.check(okcs, site(ir), ir.qualname, "a colour space named by the document is only constructed under `name == <constant>`", why="PDFColorSpace built from an unconstrained document name: its name is written unescaped by XMLConverter")
+
+    # ---------------------------------------------------------------- R11: attribute values cannot carry control characters at all
+    r11 = rep.rule("C11-R11", "TAINT", "XML attributes filled from the document (figure name, font name, image file name) lose the C0 control characters XML 1.0 cannot carry, whatever strip_control says - escaping alone leaves them in and the output is not well-formed", 3)
+    for f in writers:
+        if f.name in ("write", "write_text"):
+            continue
+        for c in walk_no_nested(f.node):
+            if not (isinstance(c, ast.Call) and c.args):
+                continue
+            d = dotted(c.func) or ""
+            if d in ("enc", "utils.enc"):
+                a0 = c.args[0]
+                filtered = isinstance(a0, ast.Call) and "".join((dotted(a0.func) or "").split()) in ("self.CONTROL.sub", "XMLConverter.CONTROL.sub")
+                # enc() inside the filtering helper itself
+                if _filters_control(f):
+                    continue
+                r11.check(filtered, site(f, c), f.qualname, f"{unparse(c)} : control characters are removed before escaping", why=f"`{unparse(a0)}` comes from the document (a name such as /X#01Y is legal PDF); html.escape leaves U+0001..U+001F in, and no XML parser accepts them in an attribute value")
+            elif d.startswith("self.") and _escaping_helper(model, CV + "XMLConverter." + d[5:]):
+                h = model.funcs[CV + "XMLConverter." + d[5:]]
+                r11.check(_filters_control(h), site(f, c), f.qualname, f"{unparse(c)} : the helper removes control characters before escaping", why=f"{h.qualname} escapes but does not remove the characters XML cannot carry")
 
     # ---------------------------------------------------------------- R2
     r2 = rep.rule("C11-R2", "SIBLING", "every converter encodes with self.codec when it writes to a binary sink", 5)
@@ -333,7 +370,7 @@ def _xml_attribute_bindings(model: Model, rep: Report) -> None:
         ("text", "font"): "item.fontname", ("text", "bbox"): "item.bbox", ("text", "colourspace"): "item.ncs.name", ("text", "ncolour"): "item.graphicstate.ncolor", ("text", "size"): "item.size",
         ("image", "src"): "name", ("image", "width"): "item.width", ("image", "height"): "item.height",
     }
-    WRAPPERS = {"enc", "bbox2str", "str", "repr"}
+    WRAPPERS = {"enc", "bbox2str", "str", "repr", "enc_attr"}
 
     def core(e: ast.AST) -> str:
         while isinstance(e, ast.Call) and (dotted(e.func) or "").split(".")[-1] in WRAPPERS and len(e.args) == 1:
